@@ -34,13 +34,14 @@ Item(kind, i) ==
     [] kind = "nnull"  -> Stmt(<<Stmt(<<NullT>>), Stmt(<<>>)>>)
     [] kind = "ecustom" -> Stmt(<<Custom("", "", ";", TRUE, <<Stmt(<<NullT>>)>>)>>)   \* a multi-line Custom group without delimiters, only nulls inside
     [] kind = "empty"  -> Stmt(<<EmptyT>>)
-\* constructs under test: every variadic construct of the table and three Custom shapes
-Customs == {"custom,", "custom;multi", "customnone"}
+\* constructs under test: every variadic construct of the table and four Custom shapes
+Customs == {"custom,", "custom;multi", "customnone", "custom,multi0"}
 ListConstructs == (VariadicNames \ {"qual"}) \cup Customs
 MkGroup(n, items) ==
   CASE n = "custom,"      -> Custom("<", ">", ",", FALSE, items)
     [] n = "custom;multi" -> Custom("{", "}", ";", TRUE, items)
     [] n = "customnone"   -> Custom("", "", "", FALSE, items)
+    [] n = "custom,multi0" -> Custom("", "", ",", TRUE, items)      \* one item per line, no opening / closing token
     [] OTHER -> Grp(n, items)
 ItemsOf(kinds) == [i \in DOMAIN kinds |-> Item(kinds[i], i)]
 Kept(kinds) == LET idx == SelectSeq([i \in DOMAIN kinds |-> i], LAMBDA i : kinds[i] \notin NullKinds)
